@@ -1,3 +1,4 @@
+pub mod jcs;
 pub mod objmodel;
 pub mod print;
 pub mod rfc8259;
